@@ -131,11 +131,14 @@ def eval_quant(I, node, frame, which):
         hi = as_int_term(I.eval(node.args[2], frame))
         guards = [lo <= bvars[0], bvars[0] < hi]
     saved_spec = I.spec
+    saved_q = getattr(I, 'in_quant', False)
     I.spec = True          # quantifier bodies are always spec expressions (total, no forking)
+    I.in_quant = True
     try:
         body = I.truth(I.eval(lam.body, f2))
     finally:
         I.spec = saved_spec
+        I.in_quant = saved_q
     pats = None
     for kw in node.keywords:
         if kw.arg == 'pattern':
@@ -215,6 +218,29 @@ def method_of_super(I, sup, name, node):
     dc, fnode = found
     clo = Closure(fnode, I.registry.global_frame(I, dc.module), f"{dc.qual}.{name}", dc.module, dc)
     return SV('func', BoundMethod(clo, slf))
+
+
+DUNDER_OPS = {'__eq__': ast.Eq, '__ne__': ast.NotEq, '__lt__': ast.Lt, '__le__': ast.LtE, '__gt__': ast.Gt, '__ge__': ast.GtE}
+
+
+def apply_dunder(I, name, a, b, node):
+    """a.__op__(b) for built-in values (S10): the comparison when the left type implements it for the right type,
+    else the NotImplemented singleton (int.__lt__(1, 2.0), str.__eq__('a', 1), ...)"""
+    from .ops import compare
+    ka, kb = a.kind, b.kind
+    num_a, num_b = ka in ('int', 'bool'), kb in ('int', 'bool')
+    ok = (num_a and num_b) or (ka == 'real' and (kb == 'real' or num_b)) or (ka == 'str' and kb == 'str') or \
+        (ka == 'bytes' and I.is_byteslike(b))
+    if not ok:
+        return NOTIMPL
+    return compare(I, DUNDER_OPS[name](), a, b, node)
+
+
+def operator_module_call(I, name, args, node):
+    """operator.__lt__(a, b) etc.: the ordinary Python operator (reflected methods included)"""
+    from .ops import compare
+    a, b = args
+    return compare(I, DUNDER_OPS[name](), a, b, node)
 
 
 # ---------------------------------------------------------------------------------------------------------------------
@@ -362,6 +388,8 @@ def call_builtin(I, f, args, kwargs, node):
             ts.append(I.as_bytes(a) if s_ == 'bytes' else (as_real_term(a) if s_ == 'real' else (a.t if s_ not in ('int',) else as_int_term(a))))
         from .objects import wrap_term
         return wrap_term(I, sig[-1], fn(*ts))
+    if name.startswith('dunder:'):
+        return apply_dunder(I, name[7:], slf, args[0], node)
     if name.startswith('builtin_new:'):
         base = {'int': 'int', 'float': 'real', 'str': 'str', 'bytes': 'bytes'}[name.split(':')[1]]
         cls_sv, val = args[0], args[1]
@@ -584,8 +612,7 @@ def b_getattr(I, slf, args, kw, node):
     obj, name = args[0], args[1]
     s = literal_str(name)
     if s is None:
-        # getattr(value, <operator dunder chosen from a table>): handled by dunder application
-        return SV('dunder', (obj, name))
+        I.oos(node, "getattr with a symbolic attribute name")
     try:
         return I.get_attr(obj, s, node)
     except SymRaise as e:
